@@ -60,7 +60,7 @@ def main():
         all_props = True
         args = args[1:]
     os.makedirs(ROOT, exist_ok=True)
-    with ThreadPoolExecutor(max_workers=6) as ex:
+    with ThreadPoolExecutor(max_workers=12) as ex:
         for diff, own, res, lines in ex.map(one, [(a, all_props) for a in args]):
             bad = {p: rc for p, rc in res.items() if rc != 0}
             print(f"{diff}: own={own} own_exit={res.get(own)} nonzero={bad}")
